@@ -152,6 +152,21 @@ where
         μ: T,
         _scaling_strategy: ScalingStrategy,
     ) -> bool {
+        // the barrier derivatives only exist at strictly interior dual points
+        // (update_dual_grad_H asserts ζ > 0).  When rounding has pushed the
+        // iterate onto the boundary, report a failed update so that the solver
+        // stops with a numerical error status instead of panicking.
+        {
+            let two: T = (2.).as_T();
+            let dim1 = self.dim1();
+            let phi = zip(&self.α, z)
+                .fold(T::one(), |phi, (&αi, &zi)| phi * (zi / αi).powf(two * αi));
+            let ζ = phi - z[dim1..].sumsq();
+            if !(ζ > T::zero()) {
+                return false;
+            }
+        }
+
         // update both gradient and Hessian for function f*(z) at the point z
         self.update_dual_grad_H(z);
         self.data.μ = μ;
